@@ -90,7 +90,22 @@ def twin_results(progs, O, nstates, rng):
             if a is None or b is None:
                 raise HarnessError('missing run')
             if a['tag'] == 'fault' and b['tag'] != 'fault':
-                verdict = ('FAULT', {'why': a.get('why'), 'function': a.get('fn'), 'line': a.get('pc'),
+                # an INDEXED access through the right port that leaves the port region is an index out
+                # of range (the ordinary twin silently reads / writes past its array): not a port matter
+                ins = None
+                try:
+                    ins = funcs_of(comp[pid]['sc'])[a.get('fn')][a.get('pc')]
+                except Exception:
+                    pass
+                if ins is not None and ins[0] == 'I':
+                    mo = re.match(r'^\(?(\w+)(?:\+(\d+))?\)?(,X|,Y)$', ins[6].replace(' ', ''))
+                    if mo:
+                        off = int(mo.group(2) or 0)
+                        store = ins[1] in ('STA', 'STX', 'STY')
+                        if (store and off < 128) or (not store and off >= 128 and ins[1] not in ('INC', 'DEC', 'ASL', 'LSR', 'ROL', 'ROR')):
+                            oob = True
+                            continue
+                verdict = ('FAULT', {'why': a.get('why'), 'function': a.get('fn'), 'line': a.get('pc'), 'instruction': ins,
                                      'initial': describe_state(lay_sc, states[k], w1)})
                 break
             if a['tag'] == 'halt' and b['tag'] == 'halt':
